@@ -299,6 +299,7 @@ def run(ctx):
     ctx.coverage_extra.update({
         'bounds': {'deviation_bound_k': k, 'rule_specs': len(shs), 'variants': len(VARIANTS), 'years': [FIRST_YEAR] + list(YEARS)},
         'rule': 'rule specs (M-form, times inside the day) with <= k deviations x 8 text variants; UTC-side probes around 5 transitions (in the first year of the definition the second onset only), '
-                'wall-side probes with both folds, 3 rotated replays across the lookup cache, 3 instants before the first onset',
+                'wall-side probes with both folds, 3 rotated replays across the lookup cache, 3 instants before the first onset; '
+                'one negative-saving definition (STANDARD +0100 / DAYLIGHT +0000) in both component orders, wall side only: 33 wall readings x 4 onsets x both folds against the pre-images under its rules',
     })
     ctx.assumptions += ['tzstr of the same rule is the comparison zone and refs/posix_tz_ref.py the independent reference for it']
